@@ -48,6 +48,7 @@ Proof.
   - dm; simpl; split; auto.
   - split; auto.
   - dm; simpl; try (split; auto; fail). split; auto. apply Forall_upd; auto. simpl. eapply nth_lt; eauto.
+  - dm; simpl; try (split; auto; fail). split; auto. apply Forall_upd; auto. simpl. exact (Forall_nth _ _ _ _ F Heqo).
 Qed.
 
 Lemma reach_ctx_wf e ops : ctx_wf (run e init_world ops).
